@@ -65,4 +65,68 @@ theorem prims_lawful : prims.Lawful where
   contains_bool := by
     intro a b v h; simp only [prims, contains] at h
     split at h <;> simp [bad] at h <;> exact ⟨_, h.symm⟩
+/-! ### facts about the concrete map construction: the last pair wins for its key -/
+
+theorem cmpStr_refl (a : String) : cmpStr a a = .eq := by
+  unfold cmpStr
+  have : ¬ a < a := String.lt_irrefl a
+  simp [this]
+
+theorem cmpFl_refl (x : Fl) : (cmpFl x x).getD .eq = .eq := by
+  cases x <;> simp [cmpFl]
+
+mutual
+  theorem cmpV_refl : ∀ v : V, cmpV v v = .eq
+    | .undef => by simp [cmpV, flOf]
+    | .silent => by simp [cmpV, flOf]
+    | .none => by simp [cmpV, flOf]
+    | .bool b => by simp [cmpV, flOf, cmpFl]
+    | .int n => by simp [cmpV, flOf, cmpFl]
+    | .float b => by simp [cmpV, flOf]; exact cmpFl_refl _
+    | .str s => by simp [cmpV, cmpStr_refl]
+    | .list xs => by rw [cmpV]; exact cmpL_refl xs
+    | .tuple xs => by rw [cmpV]; exact cmpL_refl xs
+    | .map xs => by rw [cmpV]; exact cmpP_refl xs
+    | .other _ => by simp [cmpV, flOf]
+  theorem cmpL_refl : ∀ xs : List V, cmpL xs xs = .eq
+    | [] => by simp [cmpL]
+    | x :: xs => by rw [cmpL, cmpV_refl x]; exact cmpL_refl xs
+  theorem cmpP_refl : ∀ xs : List (V × V), cmpP xs xs = .eq
+    | [] => by simp [cmpP]
+    | (k, v) :: xs => by rw [cmpP, cmpV_refl k]; simp only []; rw [cmpV_refl v]; exact cmpP_refl xs
+end
+
+/-- looking a key up right after inserting it finds the inserted value (`BTreeMap::insert`
+    overwrites the value of an equal key) -/
+theorem mapGet_mapInsert_self (k v : V) : ∀ m : List (V × V), mapGet k (mapInsert k v m) = some v
+  | [] => by simp [mapInsert, mapGet, cmpV_refl]
+  | (k', v') :: rest => by
+    rw [mapInsert]
+    cases h : cmpV k k' with
+    | lt => simp [mapGet, cmpV_refl]
+    | eq => simp [mapGet, h]
+    | gt => simp only [mapGet, h]; simpa using mapGet_mapInsert_self k v rest
+
+/-- `{…, k: v}` (run time: `BuildMap`; compile time: `Map::as_const`; both insert in source order):
+    the LAST pair of a map literal determines the value of its key, whatever came before -/
+theorem mkMap_last_wins (ps : List (V × V)) (k v : V) :
+    ∃ m, mkMap (ps ++ [(k, v)]) = .map m ∧ mapGet k m = some v := by
+  refine ⟨_, rfl, ?_⟩
+  simp only [List.foldl_append, List.foldl_cons, List.foldl_nil]
+  exact mapGet_mapInsert_self k v _
+
+/-- the same for keyword arguments (`f(a=1, a=2)` passes `a=2`) -/
+theorem kwInsert_self (k : String) (v : V) : ∀ m : List (String × V), (kwInsert k v m).lookup k = some v
+  | [] => by simp [kwInsert]
+  | (k', v') :: rest => by
+    rw [kwInsert]
+    split
+    · simp [List.lookup]
+    · split
+      · next h => subst h; simp [List.lookup]
+      · next h1 h2 =>
+        have : (k == k') = false := by simpa using h2
+        simp only [List.lookup, this]
+        exact kwInsert_self k v rest
+
 end MJ.Fold.Conc
